@@ -107,6 +107,19 @@ chk("C16", "fault_enumeration",
     "specified-noise runs; the faulted trace must validate in full against BadsRunTrace (bounds, budget, truthful result, no crash) and every FitAttempt must have consistent arguments.",
     RUN_NOTE, "TLC-generated fit-fault patterns (GPTrain.tla) replayed into real runs, each validated by TLC against BadsRunTrace.tla", "DESIGN.md 6 C16")
 
+chk("C07", "model_checking",
+    "Repro.tla models what a seeded instance reads from process-shared state (NumPy global generator, options.py module global, foreign instances); TLC checks RunInputHistoryFree and "
+    "enumerates every schedule (<= 6 steps) of constructing/running the instance under test among foreign draws, seeded/unseeded foreign constructions and foreign runs; each schedule is replayed "
+    "in a fresh process for 4 problem kinds (deterministic/noisy from the global RNG x x0 given/omitted) and the full call log and result are compared bit for bit with the two-step reference.",
+    "Trusted base: TLC, fork()ed fresh processes (parent has not run pybads before forking). Bounded: schedules <= 6 steps (quick: a stratified subset).",
+    "TLC enumeration of Repro.tla schedules replayed in fresh real processes, bit-for-bit comparison", "DESIGN.md 6 C07")
+chk("C20", "model_checking",
+    "Options.tla models option loading (basic file, user overrides, advanced file with dependent defaults, run-time mutations) for three instances sharing the module global D; TLC checks "
+    "UserWins, DependentSeesUser, DefaultsForOwnD, NoLeak and enumerates all construct/run orders; each order is replayed in one process with option snapshots after every step; every option "
+    "name of the two ini files is overridden with changed and falsy sentinels; defaults are recomputed independently from the ini text; unknown names must raise ValueError; caller dict/arrays compared byte-wise.",
+    "Trusted base: TLC, the independent evaluator of the ini expressions. Bounded: 3 instances (D=2,3,1).",
+    "TLC enumeration of Options.tla schedules replayed in a real process + option-name enumeration", "DESIGN.md 6 C20")
+
 ALL = ["C%02d" % i for i in range(1, 21)]
 
 
